@@ -124,8 +124,15 @@ func loadProg(repo, verif string, patterns []string) (*Prog, error) {
 		}
 		p.idOfFn[fn] = id
 		if old, ok := p.fnByID[id]; ok {
-			// generic instantiations share the id of their origin; keep the origin
-			if old.Origin() == nil && fn.Origin() != nil {
+			// generic instantiations share the id of their origin. A generic origin cannot be
+			// verified as such (its types are parameters): verify one instantiation - they all
+			// share the body - and prefer a deterministic one.
+			oldGeneric := old.Origin() == nil && old.TypeParams().Len() > 0
+			newInst := fn.Origin() != nil
+			switch {
+			case oldGeneric && newInst:
+			case !oldGeneric && old.Origin() != nil && newInst && fn.String() < old.String():
+			default:
 				continue
 			}
 		}
